@@ -41,7 +41,8 @@ def verify(src, prop):
             shutil.copy(d, os.path.join(wt, pkgdir))
         run = "go test -vet=off -count=1 -run 'Demo|demo' ./%s/" % pkgdir
         names = re.findall(r"func (Test\w+)\(", "".join(open(d).read() for d in demos))
-        run = "go test -vet=off -count=1 -run '^(%s)$' ./%s/" % ("|".join(names), pkgdir)
+        tags = os.environ.get("SEED_TAGS", "")
+        run = "go test %s-vet=off -count=1 -run '^(%s)$' ./%s/" % ("-tags '%s' " % tags if tags else "", "|".join(names), pkgdir)
         rc0, out0 = sh(run, cwd=wt)
         res["demo_without_change"] = "pass" if rc0 == 0 else "FAIL"
         rc, out = sh("git apply %s" % patch, cwd=wt)
